@@ -123,10 +123,19 @@ func init() {
 			e.kernelCoverage(asT(a[0]))
 			return nil
 		},
+		rtPkg + "OneOf": func(e *Engine, _ *frame, _ token.Pos, a []Value) Value {
+			b := asT(a[0])
+			r := term.False
+			for _, c := range []byte(a[1].(string)) {
+				r = term.BOr(r, term.Eq(b, term.Const(8, uint64(c))))
+			}
+			return r
+		},
 		rtPkg + "SetCwd": func(e *Engine, _ *frame, _ token.Pos, a []Value) Value {
 			e.cwd = a[0].(string)
 			return nil
 		},
+		rtPkg + "GuardsIntact": func(e *Engine, _ *frame, _ token.Pos, a []Value) Value { return term.True },
 		rtPkg + "IsSymbolic": func(e *Engine, _ *frame, _ token.Pos, a []Value) Value { return term.True },
 		rtPkg + "Register":   func(e *Engine, _ *frame, _ token.Pos, a []Value) Value { return nil },
 		rtPkg + "MapOrderAdversarial": func(e *Engine, _ *frame, _ token.Pos, a []Value) Value {
@@ -179,6 +188,90 @@ func init() {
 		"encoding/binary.Read":      binaryRead,
 		"encoding/binary.Write":     binaryWrite,
 		"path/filepath.Abs":         filepathAbs,
+		"internal/bytealg.CountString": func(e *Engine, _ *frame, _ token.Pos, a []Value) Value {
+			n := 0
+			c := asT(a[1])
+			for _, b := range strBytes(a[0]) {
+				if e.branch(term.Eq(b, c), "count-byte") {
+					n++
+				}
+			}
+			return cint(n)
+		},
+		"internal/bytealg.Count": func(e *Engine, _ *frame, _ token.Pos, a []Value) Value {
+			n := 0
+			c := asT(a[1])
+			for _, b := range e.sliceElems(a[0]) {
+				if e.branch(term.Eq(asT(b), c), "count-byte") {
+					n++
+				}
+			}
+			return cint(n)
+		},
+		"internal/bytealg.IndexByteString": func(e *Engine, _ *frame, _ token.Pos, a []Value) Value {
+			c := asT(a[1])
+			for i, b := range strBytes(a[0]) {
+				if e.branch(term.Eq(b, c), "index-byte") {
+					return cint(i)
+				}
+			}
+			return term.Const(64, ^uint64(0))
+		},
+		"internal/bytealg.IndexByte": func(e *Engine, _ *frame, _ token.Pos, a []Value) Value {
+			c := asT(a[1])
+			for i, b := range e.sliceElems(a[0]) {
+				if e.branch(term.Eq(asT(b), c), "index-byte") {
+					return cint(i)
+				}
+			}
+			return term.Const(64, ^uint64(0))
+		},
+		"internal/bytealg.Equal": func(e *Engine, _ *frame, _ token.Pos, a []Value) Value {
+			x, y := e.sliceElems(a[0]), e.sliceElems(a[1])
+			if len(x) != len(y) {
+				return term.False
+			}
+			r := term.True
+			for i := range x {
+				r = term.BAnd(r, term.Eq(asT(x[i]), asT(y[i])))
+			}
+			return r
+		},
+		"internal/bytealg.MakeNoZero": func(e *Engine, _ *frame, _ token.Pos, a []Value) Value {
+			n := int(e.concretize(asT(a[0]), "MakeNoZero"))
+			out := make([]Value, n)
+			for i := range out {
+				out[i] = cbyte(0)
+			}
+			return out
+		},
+		"internal/bytealg.IndexString": func(e *Engine, _ *frame, _ token.Pos, a []Value) Value {
+			s, ok1 := a[0].(string)
+			sub, ok2 := a[1].(string)
+			if !ok1 || !ok2 {
+				panic(unsupported("substring search on symbolic strings"))
+			}
+			return cint(strings.Index(s, sub))
+		},
+		"strings.Join": func(e *Engine, _ *frame, _ token.Pos, a []Value) Value {
+			elems := e.sliceElems(a[0])
+			sep := strBytes(a[1])
+			var out []*term.T
+			for i, x := range elems {
+				if i > 0 {
+					out = append(out, sep...)
+				}
+				out = append(out, strBytes(x)...)
+			}
+			return mkStr(out)
+		},
+		"strings.ToLower": func(e *Engine, _ *frame, _ token.Pos, a []Value) Value {
+			s, ok := a[0].(string)
+			if !ok {
+				panic(unsupported("strings.ToLower of a symbolic string"))
+			}
+			return strings.ToLower(s)
+		},
 		"github.com/akalin/gopar/gf2p16.castTToByteSlice": castTToByte,
 		"github.com/akalin/gopar/gf2p16.castByteToTSlice": castByteToT,
 		"github.com/akalin/gopar/gf2p16.mulByteSliceLEUnsafe":       func(e *Engine, _ *frame, p token.Pos, a []Value) Value { return kernel(e, a, false, false, p) },
@@ -246,6 +339,7 @@ func md5Sum(e *Engine, _ *frame, _ token.Pos, a []Value) Value {
 			buf[i] = byte(b.Val)
 		}
 		h := md5.Sum(buf)
+		term.NoteConcreteMD5(buf, h)
 		for i := range out {
 			out[i] = cbyte(h[i])
 		}
